@@ -188,8 +188,12 @@ def _prog_chain(E, f, g, h):
     x1 = X.new_unit('x1', 'x one', f * x0)
     x2 = X.new_unit('x2', 'x two', g * x1)
     x3 = X.new_unit('x3', 'x three', h * x2)
-    S = {x0: 1, x1: f, x2: f * g, x3: f * g * h}
-    return X, [x0, x1, x2, x3], S
+    # units of a base type defined by an already normalised term with a plain Python int
+    from quantity.term import Term
+    x4 = X.new_unit('x4', None, Term(((7, 1), (x0, 1))))
+    x5 = X.new_unit('x5', None, Term(((3, 1), (x0, 1))))
+    S = {x0: 1, x1: f, x2: f * g, x3: f * g * h, x4: 7, x5: 3}
+    return X, [x0, x1, x2, x3, x4, x5], S
 
 
 def _prog_derived(E, f, g, h):
@@ -229,8 +233,11 @@ def _prog_term_mixed(E, f, g, h):
     w4 = W.new_unit('w4', None, Term(((x1, 1), (y1, -1), (y0, -1))))
     w5 = W.new_unit('w5', None, Term(((x0, -1), (y0, -2), (x1, 2))))
     w6 = W.new_unit('w6', None, Term(((y1, 1), (x0, 1), (y0, -3))))
-    S = {w0: 1, w1: f / g / g, w2: h * f / g, w3: f / g / g, w4: f / g, w5: f * f, w6: g}
-    return W, [w0, w1, w2, w3, w4, w5, w6], S
+    # plain Python ints as numeric elements of an (already normalised) defining term
+    w7 = W.new_unit('w7', None, Term(((7, 1), (w0, 1))))
+    w8 = W.new_unit('w8', None, Term(((3, 1), (w0, 1))))
+    S = {w0: 1, w1: f / g / g, w2: h * f / g, w3: f / g / g, w4: f / g, w5: f * f, w6: g, w7: 7, w8: 3}
+    return W, [w0, w1, w2, w3, w4, w5, w6, w7, w8], S
 
 
 USER_PROGRAMS = [_prog_chain, _prog_derived, _prog_term_mixed]
@@ -269,7 +276,7 @@ def conv_user(E, cfg):
     E.check(r == q, 'user-converted-equals-original')
     back = r.convert(u)
     E.check(back.amount == a, 'user-round-trip')
-    k = E.choice('third', idx[:3] + idx[-1:])
+    k = E.choice('third', idx[:2] + idx[-2:])
     w = units[k]
     via = q.convert(w).convert(v)
     E.check(via.amount == r.amount, 'user-via-equals-direct')
